@@ -107,6 +107,12 @@ let () = each_line (fun line ->
       let e = parse_tree tr (ref 0) in
       let buf = Buffer.create 256 in
       ignore (build e buf); Buffer.contents buf
+    | "rt" :: ha :: ht :: ar :: _ ->
+      let a = bytes_of_hex ha and t = bytes_of_hex ht and args = parse_args ar in
+      let (r, bo) = get (amessage (Some (fill 8192)) a t args) in
+      let b = match bo with Some b -> b | None -> [] in
+      let got = if zi r = 0 then "EMPTY" else hex_of_bytes (List.filteri (fun i _ -> i < zi r) b) in
+      Printf.sprintf "rp=%s bc=%s" got got
     | "pm" :: h :: _ -> Printf.sprintf "p=%d" (if get (bundle_p (bytes_of_hex h)) then 1 else 0)
     | "raw" :: h :: _ ->
       let m = bytes_of_hex h in
